@@ -73,6 +73,8 @@ def core_casts(fx, rep, value_ty):
 
 
 def run(fx, rep):
+    from .report import producer_rules
+    producer_rules(fx, rep, 'producer rule: the parser builds relation nodes from their own children with the operator the source shows (C04 R3/R7/R9)', [('c04', 'C04', '^(R3/visit_relation/|R7/visit_relation/|R9/|R3/find_operator/|R3/token-literal/)')], 8)
     rep.rule('R1', 'relation-operator table; != is the provided negation of ==')
     rep.rule('R2', 'orderable variant pairs are a subset of equatable pairs; catch-alls return false / None')
     rep.rule('R4', 'min/max fold polarity, result is one of the inputs, None -> ValuesNotComparable')
@@ -233,6 +235,12 @@ def run(fx, rep):
                 rep.violation('R6', 'bitwise-float/%s/%s' % ('eq' if body is eqb else 'partial_cmp', nc.rsplit('::', 1)[-1]), F.loc_of(t['span']),
                               '%s compares doubles by representation: -0.0 and 0.0 become different (and NaN equal to itself), unlike IEEE ==, < used by CEL' % nc)
     rep.floor('R6', 12)
+    # ---------------- R7 container equality is structural
+    rep.rule('R7', 'equality of maps and keys is the compiler-derived structural equality (entries equal <=> maps equal); Value::eq delegates to it')
+    for ty in ('cel_interpreter::objects::Map', 'cel_interpreter::objects::Key'):
+        eb = [x for x in fx.bodies.values() if x.path == '<%s as std::cmp::PartialEq>::eq' % ty]
+        rep.check(len(eb) == 1 and eb[0].is_derived(), 'R7', 'derived-eq/%s' % ty.rsplit('::', 1)[-1], eb[0].loc() if eb else '-', '#[derive(PartialEq)]',
+                  'PartialEq for %s is hand-written: equality of maps must be "same keys (by Key equality), equal values" and symmetric; a lookup-based comparison (Map::get falls back between int and uint keys) is neither' % ty)
     # ---------------- R4
     for fn, keep in (('max', 1), ('min', -1)):
         fb = fx.body('cel_interpreter::functions::' + fn)
